@@ -1,11 +1,15 @@
 """C10 — constrained estimators return physical, consistent estimates.
 
 Sub-checks (see harness/manifest/C10.json for what each one ties):
-  select    decision table of ProjectedGradientDescent.set_constraint_from_standard_qt_and_option vs the Coq model
+  select    decision table of ProjectedGradientDescent.set_constraint_from_standard_qt_and_option vs the Coq model (the physical
+            projection runs in the OPTION's mode_proj_order: repaired code, fixes/qoperation-func-proj-physical-with-var-order.diff)
+  reuse     one algorithm object used for several jobs: last estimate == a fresh object's estimate, and feasible (repaired code,
+            fixes/pgd-cached-func-proj.diff, owner C13)
   origin    generate_origin_obj vs the model; origin is physical; it is the start point of the three algorithms
   steps     every step of backtracking / momentum / FISTA runs vs the extracted step functions (P, f-values: recorded)
   run_eq    a complete backtracking run with the rational equality projection vs the extracted loop
   ple       ProjectedLinearEstimator == calc_proj_physical(LinearEstimator's estimate), both orders; exact data
+  ineq_var  State.calc_proj_ineq_constraint_with_var(on_para_eq_constraint=True) vs the exact diagonal two-qubit model (correspondence only)
   estimates all estimators x algorithms x losses x flags x orders x data kinds: physicality verdicts (quara's own and
             exact psd_dec), every stored iterate feasible, exact data returns the object
 
@@ -18,7 +22,15 @@ of every run are written into the evidence as a note).  With s = sqrt(eps_proj_p
 so  TOL_FEAS = 300 s (3e-5; margin 265x; quara's own simulation check uses 1e-5), exact data: projected linear 100 s (1e-5, margin 1e10),
 backtracking 1e-3 (squared error, 165x) / 2e-2 (relative entropy, 194x).  A projection that is skipped, mis-selected, or applied to the wrong
 point leaves residuals of 1e-2 .. 1 on the few-shot and far-out-of-range data (checked with mutated copies of the tree).
-Findings: C10-2 (raised: flags (eq off, ineq on) under on_para_eq_constraint=True), C10-1 (not raised: option order ignored) — /verif/findings.
+  * both options on, on_para_eq_constraint=False: defect of the constraint projected LAST in the option's order (estimate and stored iterates):
+    6.7e-14 at most (the other constraint: 4e-8 .. 1.1e-7) -> TOL_LAST = 1e-11 (150x margin; a run in the wrong order is 4000x above it)
+Scope: physicality is judged per constraint option that is ON (both on = the property's "constraint options on"; one on = that constraint only).
+The combination (on_algo_eq_constraint=False, on_algo_ineq_constraint=True) under on_para_eq_constraint=True is NOT judged: it is not a
+configuration "with the constraint options on", and the installed variable-level inequality projection provably leaves the PSD set
+(Props: C10_ineq_only_projection_with_para_eq_not_into_psd; observation in findings/C10-2.md).
+Defects reported on a tree without the repairs: QOperation.func_calc_proj_physical_with_var / mode_proj_order-ignored (select, estimates; findings/C10-1.md,
+fixes/qoperation-func-proj-physical-with-var-order.diff) and ProjectedGradientDescent.set_constraint_from_standard_qt_and_option / cached-func-proj
+(select, reuse; fixes/pgd-cached-func-proj.diff, owner C13).
 """
 import contextlib, io, itertools, math, warnings
 from fractions import Fraction
@@ -31,6 +43,7 @@ FEAS_FACTOR = 300.0        # TOL_FEAS = FEAS_FACTOR * sqrt(eps_proj_physical)
 EXACT_PLE_FACTOR = 100.0
 TOL_EXACT_BT = {"se": 1e-3, "re": 2e-2}      # by loss family (squared error / relative entropy)
 TOL_SAME = 1e-12           # "exact same call" agreement
+TOL_LAST = 1e-11           # defect of the constraint projected last (rounding only; calibration below)
 
 
 # ------------------------------------------------------------------ quara imports (lazy: the tree under test)
@@ -381,8 +394,6 @@ def cal(key, val):
         CAL[key] = val
 
 
-INEQ_PARA_SITE = "ProjectedGradientDescent.set_constraint_from_standard_qt_and_option[on_para_eq_constraint=True,eq off,ineq on]"
-INEQ_PARA_SIG = "ineq-only-projection-leaves-psd-set"
 ALGO_SITE = {"bt": "ProjectedGradientDescentBacktracking.optimize", "mom": "ProjectedGradientDescentWithMomentum.optimize",
              "fista": "ProjectedFastIterativeShrinkageThresholdingAlgorithm.optimize"}
 
@@ -418,6 +429,12 @@ def chk_estimate(ctx, case):
     template = qt.generate_empty_estimation_obj_with_setting_info()
     tol = tol_feas(template)
     s = math.sqrt(template.eps_proj_physical)
+    if case["est"] == "lme" and flags == (False, True) and para:
+        # NOT a configuration the property talks about ("... and the constraint options on": here on_algo_eq_constraint is off), and the
+        # installed projection to_var o P_psd o to_stacked does not map into the PSD set (Props: C10_ineq_only_projection_with_para_eq_not_into_psd;
+        # tied to the code by sub-check ineq_var): no physicality verdict.  (Cases of this shape are no longer generated; old replays end here.)
+        ctx.count("estimates", key=case["id"], nontrivial=False, label="not-judged:ineq-only+para_eq (outside the property)")
+        return
     iterates = []
     if case["est"] == "ple":
         site = "ProjectedLinearEstimator.calc_estimate"
@@ -426,17 +443,7 @@ def chk_estimate(ctx, case):
         label = "ple"
     else:
         site = ALGO_SITE[case["algo"]]
-        try:
-            res, det, algo, opt, loss, _ = run_lme(qt, empi, case["algo"], case["loss"], flags, case["order"], case["maxit"])
-        except Exception as e:
-            if flags == (False, True) and para:
-                # finding C10-2: the iterates leave the PSD set, probabilities turn negative, the relative-entropy gradient explodes
-                ctx.count("estimates", key=(case["id"], "C10-2"), nontrivial=True, label="ineq-only+para_eq:diverged-%s" % type(e).__name__)
-                ctx.violation("estimates", INEQ_PARA_SITE, INEQ_PARA_SIG,
-                              "%s %s/%s on_para_eq_constraint=True, flags (eq off, ineq on), data=%s: the run diverges and raises %s: %s" % (
-                                  kind, case["algo"], case["loss"], case["data"], type(e).__name__, str(e)[:120]), case)
-                return
-            raise
+        res, det, algo, opt, loss, _ = run_lme(qt, empi, case["algo"], case["loss"], flags, case["order"], case["maxit"])
         iterates = list(det.x)
         label = "%s/%s" % (case["algo"], case["loss"])
         if not np.array_equal(np.asarray(det.x[-1]), np.asarray(res.estimated_var)) or len(det.x) != det.k + 1:
@@ -452,20 +459,17 @@ def chk_estimate(ctx, case):
                     kind, label, res2.estimated_var, res.estimated_var), case)
     est = res.estimated_qoperation
     nontriv = case["data"] != "exact" or case["truth"] != "interior"
-    ctx.count("estimates", key=case["id"], nontrivial=nontriv, label="%s:%s:%s:%s" % (kind, label, case["data"], "eq%d-ineq%d" % (int(flags[0]), int(flags[1]))))
+    ctx.count("estimates", key=case["id"], nontrivial=nontriv, label="%s:%s:%s:%s:%s" % (kind, label, case["data"], "eq%d-ineq%d" % (int(flags[0]), int(flags[1])), case["order"]))
     bad, er, me = feasibility(ctx, est, B, flags, tol)
-    ineq_only_para = (flags == (False, True) and para)        # finding C10-2: to_var o P_psd o to_stacked does not map into the PSD set
-    if ineq_only_para:
-        ctx.count("estimates", key=(case["id"], "C10-2"), nontrivial=bool(bad), label="ineq-only+para_eq:%s" % ("not-psd" if bad else "psd"))
-        if bad:
-            ctx.violation("estimates", INEQ_PARA_SITE, INEQ_PARA_SIG,
-                          "%s %s on_para_eq_constraint=True, on_algo_eq_constraint=False, on_algo_ineq_constraint=True, data=%s: estimate has min eigenvalue %.3e (tolerance %.1e) — "
-                          "the variable-level inequality projection drops the trace component when converting back to variables" % (kind, label, case["data"], me, tol), case)
-        return
     if flags[0]:
         cal("eq_residual/s [%s]" % label.split("/")[0], er / s)
     if flags[1]:
         cal("neg_eig/s [%s]" % label.split("/")[0], max(0.0, -me) / s)
+    # both options on and variables = stacked vector (on_para_eq_constraint=False): the constraint projected LAST in the option's order holds
+    # to rounding for the estimate and every stored iterate (Props: C10_both_options_on_*_iterates_satisfy_last_constraint); the other one
+    # only to the stopping accuracy of the Dykstra loop.  (Under on_para_eq_constraint=True the conversion to variables re-normalises.)
+    last_chk = case["est"] == "lme" and flags == (True, True) and not para
+    last_def = {"eq_ineq": max(0.0, -me), "ineq_eq": er}          # defect of the constraint projected last, by order
     if bad:
         ctx.violation("estimates", site, "estimate-not-physical:" + bad[0].split(":")[0],
                       "%s %s para=%s flags=%s data=%s: estimate violates %s (eq residual %.3e, min eigenvalue %.3e, tolerance %.1e)" % (
@@ -485,12 +489,29 @@ def chk_estimate(ctx, case):
                 cal("neg_eig/s [iterates]", max(0.0, -me2) / s)
             if b2 and worst is None:
                 worst = (t, b2, er2, me2)
+            if last_chk and t >= 1:
+                last_def = {"eq_ineq": max(last_def["eq_ineq"], -me2), "ineq_eq": max(last_def["ineq_eq"], er2)}
         ctx.count("estimates", key=(case["id"], "iterates"), nontrivial=len(idx) > 2, label="iterates:%s" % case["algo"])
         if worst:
             t, b2, er2, me2 = worst
             ctx.violation("estimates", site, "iterate-not-feasible:" + b2[0].split(":")[0],
                           "%s %s flags=%s data=%s: stored iterate %d of %d violates %s (eq residual %.3e, min eigenvalue %.3e, tolerance %.1e)" % (
                               kind, label, flags, case["data"], t, len(iterates), b2, er2, me2, tol), case)
+    if last_chk:
+        order = case["order"]; other = "ineq_eq" if order == "eq_ineq" else "eq_ineq"
+        cal("last_constraint_defect [%s]" % order, last_def[order]); cal("other_constraint_defect [%s]" % order, last_def[other])
+        decided = last_def[other] > 1e3 * TOL_LAST          # the run shows WHICH constraint was projected last
+        ctx.count("estimates", key=(case["id"], "last"), nontrivial=decided, label="last-constraint-exact:%s:%s" % (order, "decided" if decided else "both-exact"))
+        if last_def[order] > TOL_LAST:
+            if last_def[other] <= TOL_LAST:
+                ctx.violation("estimates", ORDER_SITE, ORDER_SIG,
+                              "%s %s para=False flags (eq on, ineq on) option mode_proj_order=%s: the estimate and the stored iterates satisfy the constraint projected last in order %r to rounding "
+                              "(defect %.2e) and the one projected last in the option's order only to %.2e — the projection ran in the other order" % (
+                                  kind, label, order, other, last_def[other], last_def[order]), case)
+            else:
+                ctx.violation("estimates", site, "last-projected-constraint-not-exact",
+                              "%s %s para=False flags (eq on, ineq on) order=%s: constraint projected last holds only to %.2e (other constraint %.2e; expected <= %.0e: every iterate is a convex "
+                              "combination of outputs of that projection)" % (kind, label, order, last_def[order], last_def[other], TOL_LAST), case)
     # exact data of a physical object returns it (projected linear, backtracking)
     if case["data"] == "exact" and flags == (True, True) and (case["est"] == "ple" or case["algo"] == "bt"):
         dist = float(np.abs(stacked(est) - stacked(truth)).max())
@@ -546,8 +567,8 @@ def gen_estimate_cases(ctx):
                     r = rng.random()
                     if r < 0.12:
                         fl = [True, False]
-                    elif r < 0.24:
-                        fl = [False, True]
+                    elif r < 0.24 and not para:
+                        fl = [False, True]          # under on_para_eq_constraint=True this combination is outside the property (see chk_estimate)
                     maxit = (40 if small else 25) if quick else (300 if small else 120)
                     if data == "exact" and algo == "bt":
                         maxit = max(maxit, 200)
@@ -568,13 +589,9 @@ def sub_estimates(ctx):
 KIND_CODE = {"physical": 0, "eq": 1, "ineq": 2, "identity": 3}
 ORDER_CODE = {"eq_ineq": 0, "ineq_eq": 1}
 SELECT_SITE = "ProjectedGradientDescent.set_constraint_from_standard_qt_and_option"
-
-
-def model_select(m, cached, t_para, t_order, flags, order, maxit):
-    """cached: None or (kind, para, order, maxit) codes. returns (kind, para, order, maxit) codes"""
-    c = [0, 0, 0, 0, 0] if cached is None else [1] + [int(v) for v in cached]
-    v = m.call("c10.select", c + [int(t_para), ORDER_CODE[t_order], int(flags[0]), int(flags[1]), ORDER_CODE[order], int(maxit)])
-    return tuple(int(x) for x in v)
+ORDER_SITE = "QOperation.func_calc_proj_physical_with_var"
+ORDER_SIG = "mode_proj_order-ignored"
+CACHED_SIG = "cached-func-proj"          # site SELECT_SITE; repair fixes/pgd-cached-func-proj.diff (owner C13)
 
 
 def candidates(si, c_sys, para, v, maxit):
@@ -591,27 +608,52 @@ def candidates(si, c_sys, para, v, maxit):
     return out
 
 
+def model_installed(m, given, cfgs, t_para, t_order):
+    """installed projection of a (re-used) algorithm object after the configurations cfgs = [(flags, order, maxit), ...] (Coq: C10_installed
+    (fold_left C10_configure cfgs a0)); given: None or descriptor codes of a projection handed to the constructor"""
+    zs = [0, 0, 0, 0, 0] if given is None else [1] + [int(v) for v in given]
+    for f_, o_, mx_ in cfgs:
+        zs += [int(t_para), ORDER_CODE[t_order], int(f_[0]), int(f_[1]), ORDER_CODE[o_], int(mx_)]
+    return tuple(int(x) for x in m.call("c10.configure_seq", zs))
+
+
 def chk_select(ctx, case):
     Qm = q()
     m = ctx.get_model()
     rng = case_rng(ctx, case)
     qt, c_sys = make_qt(case["kind"], case["sys"], case["para"])
     A, AO = Qm.ALGO[case["algo"]]
-    algo = A()
     si = qt.generate_empty_estimation_obj_with_setting_info()
     t_para, t_order = bool(si.on_para_eq_constraint), si.mode_proj_order
-    cached = None
-    if case.get("cached"):
-        f0, o0, mx0 = case["cached"]
-        algo.set_constraint_from_standard_qt_and_option(qt, AO(on_algo_eq_constraint=f0[0], on_algo_ineq_constraint=f0[1], mode_proj_order=o0, max_iteration_proj_physical=mx0))
-        cached = model_select(m, None, t_para, t_order, f0, o0, mx0)
     flags, order, maxit = case["flags"], case["order"], case["maxit"]
-    algo.set_constraint_from_standard_qt_and_option(qt, AO(on_algo_eq_constraint=flags[0], on_algo_ineq_constraint=flags[1], mode_proj_order=order, max_iteration_proj_physical=maxit))
-    exp = model_select(m, cached, t_para, t_order, flags, order, maxit)
-    fresh = model_select(m, None, t_para, t_order, flags, order, maxit)
+    cfgs = ([tuple(case["cached"])] if case.get("cached") else []) + [(flags, order, maxit)]
+    cached = bool(case.get("cached"))
+    given, fn_given = None, None
+    if case.get("given") is not None:
+        # a projection handed to the constructor: the equality projection (kind 1) or the identity (kind 3)
+        from quara.math import func_proj as fp
+        fn_given = si.func_calc_proj_eq_constraint_with_var(t_para) if case["given"] == 1 else fp.proj_to_self()
+        given = (case["given"], int(t_para), 0, 0)
+    algo = A(fn_given) if fn_given is not None else A()
+    for f_, o_, mx_ in cfgs:
+        algo.set_constraint_from_standard_qt_and_option(qt, AO(on_algo_eq_constraint=f_[0], on_algo_ineq_constraint=f_[1], mode_proj_order=o_, max_iteration_proj_physical=mx_))
+    exp = model_installed(m, given, cfgs, t_para, t_order)
+    if fn_given is not None:
+        ctx.count("select", key=(case["id"], "given"), nontrivial=True, label="given:kept" if algo.func_proj is fn_given else "given:replaced")
+        if algo.func_proj is not fn_given:
+            ctx.violation("select", SELECT_SITE, "given-projection-replaced",
+                          "%s %s para=%s: the projection handed to the constructor is no longer installed after configuring with flags %s" % (case["kind"], case["algo"], case["para"], [c[0] for c in cfgs]), case)
+        elif exp != given:
+            ctx.violation("select", SELECT_SITE, "model-mismatch", "model: a given projection %s is replaced by %s" % (given, exp), case)
+        return
+    first = model_installed(m, None, cfgs[:1], t_para, t_order)      # AS CODED BEFORE FIX pgd-cached-func-proj: the first derived projection is kept
+
+    def tmpl(d):                                                     # AS CODED BEFORE FIX qoperation-func-proj-physical-with-var-order: the template's order
+        return (d[0], d[1], ORDER_CODE[t_order], d[3])
     n = qt.num_variables
-    verdict = {"model": 0, "order-honoured": 0, "reselected": 0, "ineq-only-upgraded-to-physical": 0, "none": 0}
+    verdict = {"model": 0, "order-ignored": 0, "kept-first": 0, "none": 0}
     distinguishable = False
+    witness = None
     for _ in range(2):
         v = np.array([rng.randint(-20, 20) / 10 for _ in range(n)])
         with quiet():
@@ -622,33 +664,41 @@ def chk_select(ctx, case):
             key = (desc[0], desc[2] if desc[0] == 0 else None)
             mine = cand[key]
             others = [c for k2, c in cand.items() if k2 != key]
-            return float(np.abs(out - mine).max()) <= TOL_SAME, all(float(np.abs(mine - c).max()) > 1e3 * TOL_SAME for c in others)
-        ok, dist = agrees(exp)
+            return float(np.abs(out - mine).max()) <= TOL_SAME, all(float(np.abs(mine - c).max()) > 1e3 * TOL_SAME for c in others), mine
+        ok, dist, mine = agrees(exp)
         distinguishable = distinguishable or dist
         if ok:
             verdict["model"] += 1
             continue
-        # tolerated alternatives (would be FIXES of known defects, not property violations): the option's order honoured;
-        # a cached projection replaced by the one the new flags ask for
-        alts = []
-        for base, name0, src_order in ((exp, None, case["cached"][1] if cached else order), (fresh, "reselected", order)):
-            if name0:
-                alts.append((name0, base))
-            # the option's order honoured (fix of finding C10-1)
-            alts.append((name0 or "order-honoured", (base[0], base[1], ORDER_CODE[src_order], base[3])))
-            if base[0] == 2 and base[1] == 1:
-                # (eq off, ineq on) under on_para_eq_constraint=True: the physical projection instead of the inequality
-                # projection alone (fix of finding C10-2)
-                alts += [(name0 or "ineq-only-upgraded-to-physical", (0, 1, o, base[3])) for o in (0, 1)]
+        # not the model's projection.  Name the failure class:
+        #  order-ignored : the physical projection in the TEMPLATE's order (defect repaired by fixes/qoperation-func-proj-physical-with-var-order.diff)
+        #  kept-first    : the projection derived for the FIRST configuration is still installed (defect repaired by fixes/pgd-cached-func-proj.diff, owner C13)
+        alts = [("order-ignored", tmpl(exp))]
+        if cached:
+            alts += [("kept-first", first), ("kept-first", tmpl(first))]
         for name, d in alts:
             if agrees(d)[0]:
                 verdict[name] += 1
+                if name == "order-ignored" and (witness is None or float(np.abs(out - mine).max()) > float(np.abs(witness[1] - witness[2]).max())):
+                    witness = (v, out, mine)
                 break
         else:
             verdict["none"] += 1
-    lab = "cached" if cached else "fresh"
+    lab = "given" if given else ("reused" if cached else "fresh")
     got = [k for k, c in verdict.items() if c]
-    ctx.count("select", key=case["id"], nontrivial=distinguishable, label="%s:kind%d:%s" % (lab, exp[0], "+".join(got)))
+    ctx.count("select", key=case["id"], nontrivial=distinguishable, label="%s:kind%d:%s:%s" % (lab, exp[0], order if exp[0] == 0 else "-", "+".join(got)))
+    if verdict["order-ignored"]:
+        v, out, mine = witness
+        ctx.violation("select", ORDER_SITE, ORDER_SIG,
+                      "%s %s para=%s flags=%s option mode_proj_order=%s max_iteration_proj_physical=%s cached=%s: the installed func_proj runs the physical projection in the "
+                      "template's order %r, not in the option's: func_proj(%s) = %s, calc_proj_physical_with_var in the option's order gives %s (difference %.3e)" % (
+                          case["kind"], case["algo"], case["para"], flags, order, maxit, case.get("cached"), t_order,
+                          [float(t) for t in v], [float(t) for t in out], [float(t) for t in mine], float(np.abs(out - mine).max())), case)
+    if verdict["kept-first"]:
+        ctx.violation("select", SELECT_SITE, CACHED_SIG,
+                      "%s %s para=%s: algorithm object configured with flags %s (order %s) and then with flags %s (order %s, max_iteration_proj_physical %s): the installed func_proj is still the "
+                      "projection derived from the FIRST configuration (model: kind %d), not the one of the current configuration (model: kind %d)" % (
+                          case["kind"], case["algo"], case["para"], cfgs[0][0], cfgs[0][1], flags, order, maxit, first[0], exp[0]), case)
     if verdict["none"]:
         ctx.violation("select", SELECT_SITE, "wrong-projection",
                       "%s %s para=%s flags=%s order=%s maxit=%s cached=%s: installed func_proj is not the projection the decision table (model: kind %d order %d maxit %d) selects" % (
@@ -692,9 +742,74 @@ def sub_select(ctx):
                 f1 = rng.choice([f for f in ([True, True], [True, False], [False, True], [False, False]) if f != f0])
                 cases.append(dict(id="s%d" % n, kind=kind, sys=sysname, para=para, algo=rng.choice(["bt", "mom", "fista"]), flags=f1,
                                   order=rng.choice(["eq_ineq", "ineq_eq"]), maxit=100000, cached=[f0, rng.choice(["eq_ineq", "ineq_eq"]), 100000])); n += 1
+            # a projection handed to the constructor (equality projection / identity), then one or two configurations
+            for g in (1, 3):
+                f1 = rng.choice([[True, True], [True, False], [False, True], [False, False]])
+                c = dict(id="s%d" % n, kind=kind, sys=sysname, para=para, algo=rng.choice(["bt", "mom", "fista"]), flags=f1,
+                         order=rng.choice(["eq_ineq", "ineq_eq"]), maxit=100000, given=g); n += 1
+                if rng.random() < 0.5:
+                    c["cached"] = [rng.choice([[True, True], [False, False]]), rng.choice(["eq_ineq", "ineq_eq"]), 100000]
+                cases.append(c)
     ctx.sample("select", cases[0])
     ctx.run_cases("select", chk_select, stamp(ctx, cases))
     ctx.run_cases("select", chk_select_errors, [{"order": o} for o in ("eq_ineq", "ineq_eq", "eq-ineq", "", "ineq_eq ")])
+
+
+# ------------------------------------------------------------------ sub-check: reuse (one algorithm object, several jobs — end to end)
+def chk_reuse(ctx, case):
+    """LossMinimizationEstimator.calc_estimate called repeatedly with the SAME algorithm object and different options (Props:
+    C10_reused_algorithm_installs_projection_of_last_configuration): the last job's estimate is exactly the estimate a fresh object returns,
+    and it is feasible for the constraint options that are on in that job"""
+    Qm = q()
+    rng = case_rng(ctx, case)
+    kind, sysname, para = case["kind"], case["sys"], case["para"]
+    qt, c_sys = make_qt(kind, sysname, para)
+    B = basis_mats(c_sys)
+    truth = true_object(rng, kind, sysname, c_sys, para, "generic")
+    empi = empi_from(qt, truth, rng, case["data"], case["shots"])
+    A, AO = Qm.ALGO[case["algo"]]
+    L, LO = Qm.LOSS[case["loss"]]
+    algo = A()
+    res = None
+    for fl, order in case["jobs"]:
+        opt = AO(on_algo_eq_constraint=fl[0], on_algo_ineq_constraint=fl[1], mode_proj_order=order, max_iteration_optimization=case["maxit"])
+        with quiet():
+            res = Qm.LossMinimizationEstimator().calc_estimate(qt, empi, L(qt.num_variables), LO("identity"), algo, opt)
+    fl, order = case["jobs"][-1]
+    flags = tuple(fl)
+    fresh, *_ = run_lme(qt, empi, case["algo"], case["loss"], flags, order, case["maxit"])
+    same = np.array_equal(np.asarray(res.estimated_var, dtype=float), np.asarray(fresh.estimated_var, dtype=float))
+    tol = tol_feas(qt.generate_empty_estimation_obj_with_setting_info())
+    bad, er, me = feasibility(ctx, res.estimated_qoperation, B, flags, tol)
+    moved = float(np.abs(np.asarray(fresh.estimated_var, dtype=float)).max()) > 0
+    ctx.count("reuse", key=case["id"], nontrivial=moved, label="%s:%s:%s" % (case["algo"], "->".join("eq%d-ineq%d-%s" % (int(f[0]), int(f[1]), o) for f, o in case["jobs"]), "same-as-fresh" if same else "differs"))
+    if not same:
+        ctx.violation("reuse", SELECT_SITE, CACHED_SIG,
+                      "%s %s/%s para=%s data=%s: one algorithm object used for the jobs %s: the last estimate %s differs from the estimate of a fresh object %s "
+                      "(constraints of the last job violated: %s; eq residual %.3e, min eigenvalue %.3e, tolerance %.1e)" % (
+                          kind, case["algo"], case["loss"], para, case["data"], case["jobs"], [float(t) for t in res.estimated_var], [float(t) for t in fresh.estimated_var], bad or "none", er, me, tol), case)
+    elif bad:
+        ctx.violation("reuse", ALGO_SITE[case["algo"]], "estimate-not-physical:" + bad[0].split(":")[0],
+                      "%s %s/%s para=%s flags=%s data=%s: estimate violates %s (eq residual %.3e, min eigenvalue %.3e, tolerance %.1e)" % (
+                          kind, case["algo"], case["loss"], para, flags, case["data"], bad, er, me, tol), case)
+
+
+def sub_reuse(ctx):
+    rng = ctx.rng
+    cases = []
+    n = 0
+    patterns = [[[[False, False], "eq_ineq"], [[True, True], "eq_ineq"]],
+                [[[True, True], "eq_ineq"], [[True, True], "ineq_eq"]],
+                [[[True, False], "eq_ineq"], [[False, False], "eq_ineq"], [[True, True], "ineq_eq"]]]
+    settings = [("qst", "1qubit")] + ([] if ctx.quick else [("povmt", "1qubit"), ("qst", "1qutrit")])
+    for kind, sysname in settings:
+        for para in (True, False):
+            for algo in ("bt", "mom", "fista"):
+                for jobs in (patterns if not ctx.quick else [patterns[0], rng.choice(patterns[1:])]):
+                    cases.append(dict(id="u%d" % n, kind=kind, sys=sysname, para=para, algo=algo, loss=rng.choice(["wse", "swse", "wre"]),
+                                      data=rng.choice(["far", "fewshot"]), shots=2, jobs=jobs, maxit=25)); n += 1
+    ctx.sample("reuse", cases[0])
+    ctx.run_cases("reuse", chk_reuse, stamp(ctx, cases))
 
 
 # ------------------------------------------------------------------ sub-check: origin
@@ -877,7 +992,7 @@ def sub_steps(ctx):
                     flags = [True, True] if r < 0.7 else ([True, False] if r < 0.85 else [False, True])
                     big = kind in ("qpt", "qmpt") or sysname != "1qubit"
                     cases.append(dict(id="t%d" % n, kind=kind, sys=sysname, para=para, algo=algo, data=data, shots=shots,
-                                      truth=rng.choice(["boundary", "interior", "generic"]), flags=flags, order="eq_ineq",
+                                      truth=rng.choice(["boundary", "interior", "generic"]), flags=flags, order=rng.choice(["eq_ineq", "ineq_eq"]),
                                       maxit=(4 if big else 8) if ctx.quick else (10 if big else 25))); n += 1
     ctx.sample("steps", cases[0])
     ctx.run_cases("steps", chk_steps, stamp(ctx, cases))
@@ -1007,10 +1122,13 @@ def sub_ple(ctx):
     ctx.run_cases("ple", chk_ple, stamp(ctx, cases))
 
 
-# ------------------------------------------------------------------ sub-check: refuted (finding C10-2 witness replayed on the code)
-def chk_refuted(ctx, case):
-    """diagonal two-qubit states, on_para_eq_constraint=True: the variable-level inequality projection vs the exact
-    diagonal model (Props: C10_ineq_only_projection_with_para_eq_refuted); the witness must show the same failure"""
+# ------------------------------------------------------------------ sub-check: ineq_var (variable-level inequality projection under on_para_eq_constraint=True)
+def chk_ineq_var(ctx, case):
+    """diagonal two-qubit states, on_para_eq_constraint=True: State.calc_proj_ineq_constraint_with_var (through
+    func_calc_proj_ineq_constraint_with_var, the projection installed for the flags (eq off, ineq on)) vs the exact diagonal model
+    C10_proj_ineq_with_var.  A model/code correspondence: the model says (Props: C10_ineq_only_projection_with_para_eq_not_into_psd) that
+    this map leaves the PSD set; that is why sub-check `estimates` gives no verdict for that configuration (which the property does not
+    quantify over).  Nothing is raised for leaving the PSD set; a disagreement between code and model is raised."""
     m = ctx.get_model()
     qt, c_sys = make_qt("qst", "2qubit", True)
     B = basis_mats(c_sys)
@@ -1034,41 +1152,39 @@ def chk_refuted(ctx, case):
     rest = float(np.abs(np.delete(out, [pos[0], pos[1], pos[2]])).max())
     obj = si.generate_from_var(out)
     eig_i = sorted(float(t) for t in np.linalg.eigvalsh(operators_of(obj, B)[0]))
-    fails = min(eig_ret) < -1e-9
-    ctx.count("refuted", key=tuple(case["var"]), nontrivial=True, label="witness" if case.get("witness") else ("leaves-psd-set" if fails else "stays-psd"))
+    leaves = min(eig_ret) < -1e-9
+    ctx.count("ineq_var", key=tuple(case["var"]), nontrivial=True, label="witness" if case.get("witness") else ("leaves-psd-set" if leaves else "stays-psd"))
     if not vclose(r_i, r_m, 1e-12) or rest > 1e-12 or not vclose(eig_i, sorted(eig_ret), 1e-12):
-        ctx.violation("refuted", "State.calc_proj_ineq_constraint_with_var", "model-mismatch",
+        ctx.violation("ineq_var", "State.calc_proj_ineq_constraint_with_var", "model-mismatch",
                       "diagonal 2-qubit variables %s: implementation returns %s (other components %.1e, eigenvalues %s), model %s (eigenvalues %s)" % (
                           case["var"], r_i, rest, eig_i, r_m, sorted(eig_ret)), case)
         return
     if case.get("witness"):
-        # the same input through the projection the estimator installs for (eq off, ineq on)
+        # the same input through the projection the algorithms install for (eq off, ineq on): must be this very map (decision table)
         Qm = q()
-        A, AO = Qm.ALGO["bt"]
-        algo = A()
-        algo.set_constraint_from_standard_qt_and_option(qt, AO(on_algo_eq_constraint=False, on_algo_ineq_constraint=True))
-        with quiet():
-            out2 = np.asarray(algo.func_proj(var.copy()), dtype=float)
-        obj2 = si.generate_from_var(out2)
-        eig2 = sorted(float(t) for t in np.linalg.eigvalsh(operators_of(obj2, B)[0]))
-        if min(eig2) < -tol_feas(si) or not psd_exact(ctx, obj2, B, tol_feas(si)):
-            ctx.violation("refuted", INEQ_PARA_SITE, INEQ_PARA_SIG,
-                          "witness of C10_ineq_only_projection_with_para_eq_refuted replayed on the code: 2-qubit QST, on_para_eq_constraint=True, flags (eq off, ineq on): "
-                          "func_proj maps the variables (IZ,ZI,ZZ)=%s to %s; the clipped matrix has eigenvalues %s, the state denoted by the returned variables has eigenvalues %s (not PSD)" % (
-                              case["var"], [float(out2[pos[i]]) for i in range(3)], eig_clip, eig2), case)
+        for name, (A, AO) in Qm.ALGO.items():
+            algo = A()
+            algo.set_constraint_from_standard_qt_and_option(qt, AO(on_algo_eq_constraint=False, on_algo_ineq_constraint=True))
+            with quiet():
+                out2 = np.asarray(algo.func_proj(var.copy()), dtype=float)
+            ctx.count("ineq_var", key=("installed", name), nontrivial=True, label="installed-projection-is-this-map")
+            if not np.array_equal(out2, out):
+                ctx.violation("ineq_var", SELECT_SITE, "wrong-projection",
+                              "%s, 2-qubit QST, on_para_eq_constraint=True, flags (eq off, ineq on): func_proj(%s) = %s is not func_calc_proj_ineq_constraint_with_var(True) = %s" % (
+                                  name, case["var"], [float(out2[pos[i]]) for i in range(3)], r_i), case)
 
 
-def sub_refuted(ctx):
+def sub_ineq_var(ctx):
     rng = ctx.rng
     cases = [{"var": ["3/2", "0", "0"], "witness": True}]
     for _ in range(ctx.n(12, 80)):
         cases.append({"var": ["%d/%d" % (rng.randint(-12, 12), rng.choice([1, 2, 4, 5, 8])) for _ in range(3)]})
-    ctx.sample("refuted", cases[0])
-    ctx.run_cases("refuted", chk_refuted, cases)
+    ctx.sample("ineq_var", cases[0])
+    ctx.run_cases("ineq_var", chk_ineq_var, cases)
 
 
-SUBS = [("select", sub_select), ("origin", sub_origin), ("steps", sub_steps), ("run_eq", sub_run_eq), ("ple", sub_ple), ("refuted", sub_refuted), ("estimates", sub_estimates)]
-FNS = {"select": chk_select, "origin": chk_origin, "steps": chk_steps, "run_eq": chk_run_eq, "ple": chk_ple, "refuted": chk_refuted, "estimates": chk_estimate}
+SUBS = [("select", sub_select), ("reuse", sub_reuse), ("origin", sub_origin), ("steps", sub_steps), ("run_eq", sub_run_eq), ("ple", sub_ple), ("ineq_var", sub_ineq_var), ("estimates", sub_estimates)]
+FNS = {"select": chk_select, "reuse": chk_reuse, "origin": chk_origin, "steps": chk_steps, "run_eq": chk_run_eq, "ple": chk_ple, "ineq_var": chk_ineq_var, "estimates": chk_estimate}
 
 
 def run(ctx):
